@@ -28,7 +28,9 @@ struct Interp {
     std::vector<PendingMinterm> pending;
     std::string iobuf;                 // exchange "file"
     std::vector<Table> ioTables;       // model of what was written
-    std::vector<int> ioForest;
+    int ioForest = -1;                 // forest the file was written from
+    FSpec ioSpec;
+    std::vector<int> ioSlots;          // slots that were written, in order
     long nodeDeaths = 0;
     bool strictErrors = false;         // step 'strict': assert even the error points a shortcut may absorb
     std::vector<int> pendingEvents;    // relation slots pushed by 'event' steps (partitioned saturation)
